@@ -368,6 +368,11 @@ def process_batch(task: dict) -> dict:
             if m.get("near_miss"):
                 out["struct_failures"].append({"meta": m, "what": f"near-miss program ({m['near_miss']}) was accepted "
                                                "instead of being refused at decoration time", "near_miss_accepted": True})
+            if task.get("semantic", True) and not m.get("near_miss") and rec["tie"] not in ("ok", "unmodelled") \
+                    and not task.get("search"):
+                # model != implementation on this program: the oracle is run by the guarded search (a graph the
+                # model does not predict may also be one the runtime does not survive)
+                continue
             if task.get("semantic", True) and not m.get("near_miss"):
                 if "inputs" in m:
                     sets = [(feeds_from_json(i["feeds"], m), i.get("attrs", {})) for i in m["inputs"]]
@@ -376,7 +381,7 @@ def process_batch(task: dict) -> dict:
                                           tuple(m["shape"]), task["n_inputs"])
                 for f in semantic_oracle(fn[m["name"]], m, sets, stats):
                     out["prop_failures"].append({"meta": m, **f})
-            if task.get("structural", False):
+            if task.get("structural", False) and (rec["tie"] in ("ok", "unmodelled") or task.get("search")):
                 from harness import c02
 
                 for what in c02.structural_oracle(fn[m["name"]], m, rec.get("real_neutral"), stats):
@@ -413,6 +418,52 @@ def run_batches(run: core.Run, tasks: list[dict], workers: int) -> list[dict]:
             return list(ex.map(process_batch, tasks, timeout=run.size(420, 2400)))
         except cf.TimeoutError as e:
             raise core.Infra("batch workers timed out") from e
+
+
+def _search_child(task: dict, q) -> None:
+    try:
+        q.put(process_batch(task))
+    except Exception as e:  # pragma: no cover
+        q.put({"error": f"{type(e).__name__}: {e}"})
+
+
+def guarded_search(run: core.Run, ties: list[dict], semantic: bool, structural: bool, limit: int = 10,
+                   timeout_s: int = 40) -> tuple[list[dict], list[dict], Counter]:
+    """Search phase for programs on which model and implementation disagree: run the property's oracle on each
+    (more inputs), one child process per program, killed after `timeout_s` (a hang is recorded, it is neither a
+    pass nor by itself a failing input)."""
+    import multiprocessing as mp
+
+    ctx = mp.get_context("spawn")
+    pf: list[dict] = []
+    sf: list[dict] = []
+    stats: Counter = Counter()
+    todo = sorted(ties, key=lambda t: len(t["meta"]["src"]))[:limit]
+    for t in todo:
+        if not t["meta"].get("params") or t["meta"].get("near_miss"):
+            continue
+        q = ctx.Queue()
+        task = {"progs": [t["meta"]], "seed": run.rng.randrange(1 << 30), "n_inputs": 6, "semantic": semantic,
+                "structural": structural, "search": True}
+        pr = ctx.Process(target=_search_child, args=(task, q))
+        pr.start()
+        try:
+            res = q.get(timeout=timeout_s)
+        except Exception:
+            res = None
+        pr.join(timeout=2)
+        if pr.is_alive():
+            pr.kill()
+        stats["search_programs"] += 1
+        if res is None:
+            stats["search_timeouts"] += 1
+            continue
+        if "error" in res:
+            stats["search_errors"] += 1
+            continue
+        pf += res["prop_failures"]
+        sf += res["struct_failures"]
+    return pf, sf, stats
 
 
 def merge(results: list[dict]):
@@ -519,6 +570,10 @@ def main(run: core.Run) -> None:
     stats["corpus_programs"] = len(corpus)
     for m in progs[:4]:
         run.sample({"src": m["src"]})
+    if ties:
+        spf, _, sstats = guarded_search(run, ties, semantic=True, structural=False)
+        pf += spf
+        stats.update(sstats)
     pf = split_known(run, pf, findings)
     # a corpus witness is *expected* to disagree structurally only if the model is wrong about it: ties count as usual
     verdict(run, audit, stats, features, ties, pf, "C01", PROP_MODULES, refusals)
@@ -559,7 +614,8 @@ def verdict(run, audit, stats, features, ties, prop_failures, prop, modules, ref
             {"meta": t["meta"], "tie": t["tie"], "real": t["real"], "model": t["model"],
              "broken": "correspondence OV.C01.convert vs Converter.translate_function_def", "others": len(ties) - 1},
             f"correspondence broken: {t['tie']}; no input found on which the translated program differs from its source "
-            f":: program\n{t['meta']['src']}",
+            f"({stats.get('search_programs', 0)} disagreeing programs searched, {stats.get('search_timeouts', 0)} searches "
+            f"did not terminate) :: program\n{t['meta']['src']}",
             no_input=True,
         )
     if not audit["ok"]:
